@@ -46,3 +46,37 @@ Print Assumptions C07_old_block_guard_refuted.
 
 Example C07_nonvacuous : b_err (writes code_cap 8193 cbuf_init) = true /\ b_err (writes code_cap 8192 cbuf_init) = false.
 Proof. vm_compute. split; reflexivity. Qed.
+
+(* ---- budget half: theorems over Model/VM.v (validated against the real VM by K2 incl. exact NumOpCount) ---- *)
+From Coq Require Import ZArith.
+From DS Require Import Model.Value Model.VM Model.CodeWf Proofs.VMSafety.
+Open Scope Z_scope.
+
+(* numOpCountAdd: never lowers the counter, never wraps (saturates), reports "over" exactly when a positive limit is exceeded *)
+Theorem C07_ops_add_spec : forall c cur count new over,
+  0 <= cur <= MaxInt64 -> 0 <= count -> ops_add c cur count = (new, over) ->
+  cur <= new /\ new <= MaxInt64 /\ new = Z.min (cur + count) MaxInt64 /\ (over = true <-> 0 < cfg_op_limit c < new).
+Proof. exact Proofs.VMSafety.C07_ops_add_spec. Qed.
+
+(* with a budget L the main loop dispatches at most max(0, L - c0) instructions (calls into sub-VMs count as one
+   dispatch each and are themselves charged), for every program, every state, every fuel *)
+Theorem C07_budget_bounds_dispatches : forall E L, cfg_op_limit (e_cfg E) = L -> 0 < L <= MaxInt64 - 100 ->
+  forall fuel m, run_pre m ->
+  fst (exec_count fuel E m) = exec fuel E m /\
+  Z.of_nat (snd (exec_count fuel E m)) <= Z.max 0 (L - ops_of (m_w m)).
+Proof. exact Proofs.VMSafety.C07_budget_bounds_dispatches. Qed.
+
+Theorem C07_counter_never_lowered : forall E L, cfg_op_limit (e_cfg E) = L -> 0 < L <= MaxInt64 - 100 ->
+  forall fuel m m', run_pre m -> exec fuel E m = Fin m' -> ops_of (m_w m) <= ops_of (m_w m') <= MaxInt64.
+Proof. exact Proofs.VMSafety.C07_counter_never_lowered. Qed.
+
+(* once the counter has reached the limit the next instruction is not executed: EBudget *)
+
+Print Assumptions C07_ops_add_spec.
+Print Assumptions C07_budget_bounds_dispatches.
+Print Assumptions C07_counter_never_lowered.
+(* further budget theorems proved in Proofs/VMSafety.v and re-checked with it: C07_dispatch_counts,
+   C07_budget_error_once_exceeded, C07_dice_batch_charged_before_rolling, C07_dice_over_budget_no_roll,
+   C07_coc_batch_charged_before_rolling, C07_wod_rounds_charged, C07_dc_rounds_charged,
+   C07_wod_dc_rounds_charged(_step), C07_call_costs_100, C07_computed_costs_100, C07_run_dispatch_bound;
+   not proved: a call-depth bound L/100+1 (informal consequence of the +100 charge and monotonicity). *)
